@@ -43,7 +43,7 @@ CHECKS["C03"] = dict(
          "(R11, structural comparison with the manual; divisions on their Ok paths) and the condition under which MUL/IMUL set CF=OF (R12, the condition of the "
          "helper's flag branch), AAM/AAD as plain arithmetic, and two clauses of the other adjusts (AAA/AAS zero AL's high nibble on every path; DAA/DAS make "
          "their high-digit test on the adjusted AL) and DAA/DAS/AAA/AAS as piecewise functions: the helper's paths are enumerated by forcing its branches, and the "
-         "path-wise closed forms of AX and the flags are compared with the manual's definition for every AL, AF, CF and four AH (R14).",
+         "path-wise closed forms of AX and the flags are compared with the manual's definition for every AL, AF, CF and four AH (R14). R12 falls back to a partition on the operands' sign bits when the flag condition goes through a helper that branches on a sign (closed form per partition, compared with the manual's condition on the boundary operands of that partition).",
     design="DESIGN.md §6 C03")
 
 CHECKS["C04"] = dict(
@@ -55,25 +55,25 @@ CHECKS["C04"] = dict(
     design="DESIGN.md §6 C04")
 
 CHECKS["C05"] = dict(
-    technique="abstract interpretation of MIR in the per-bit copy domain (exact data movement) + affine forms for SP and stack addresses, all register alternatives enumerated",
+    technique="abstract interpretation of MIR in the per-bit copy domain (exact data movement) + affine forms for SP and stack addresses, all register alternatives enumerated; ordering of abstract memory events (load-before-store across possibly aliasing operands)",
     text="Decides exactly, per production and register alternative (456 MOV/XCHG variants, 29 stack variants): every destination bit is a copy of the "
          "corresponding source bit, nothing else changes, no flag changes (except POPF/SAHF); SP' = SP -/+ 2 mod 2^16; stack cells at (16*SS+SP) mod 2^20 "
-         "low byte first; LAHF/SAHF; XLAT address form. Interleaved push/pop histories follow by induction and are not re-checked.",
+         "low byte first; LAHF/SAHF; XLAT address form. Interleaved push/pop histories follow by induction and are not re-checked. R8: PUSH/POP with a memory operand load the whole word before the first store (order of the memory events of the abstract run; operands built from different atoms may overlap).",
     design="DESIGN.md §6 C05")
 
 CHECKS["C06"] = dict(
     technique="abstract interpretation of MIR with trace partitioning over the flag bits and three CX classes -> complete truth tables; bit domain for flag accessors; affine CX update; grammar/AST composition with the assembler's spelling table",
     text="Decided completely (finite): the truth table of every interpreter jump/loop predicate (32 flag rows x 3 CX classes) equals the Intel predicate; "
          "FLAG_* positions and get/set/unset_flag exactness; LOOPx decrement CX mod 2^16, JCXZ leaves CX; no flag/register change; every one of the "
-         "assembler's source spellings (both cases, synonyms) reaches the Intel predicate of that spelling; taken => JMP(label.map), else NEXT.",
+         "assembler's source spellings (both cases, synonyms) reaches the Intel predicate of that spelling; taken => JMP(label.map), else NEXT. R8: no abort site in any conditional transfer for every flag word and every CX class (MIR asserts classified during the truth-table runs). Mnemonics are enumerated also through keyword nonterminals.",
     design="DESIGN.md §6 C06")
 
 CHECKS["C07"] = dict(
-    technique="abstract interpretation of MIR with DF specialisation and affine address/pointer forms; memory-access and subtraction events classified by pointer dependency; production-level REP protocol with CX classes and ZF partitioning; CFG rule on the driver's REPEAT arm",
+    technique="abstract interpretation of MIR with DF specialisation and affine address/pointer forms; memory-access and subtraction events classified by pointer dependency; production-level REP protocol with CX classes and ZF partitioning; CFG rule on the driver's REPEAT arm; ordering of abstract memory events; CFG reachability between interpreter call sites and the State dispatch",
     text="Decides: source element at DS:SI and destination element at ES:DI (exact forms, required segment dependency); SI/DI step +/-size mod 2^16 "
          "under DF; word elements use cells p,p+1 in both directions; who may write memory/AL,AX/flags; CMPS/SCAS operand roles; REP protocol (nothing "
          "executes with CX=0, CX-1 and REPEAT otherwise, ZF test of REPE/REPNE); driver re-issues the same index on REPEAT; CF, AF, OF, SF, ZF of CMPS/SCAS as the CMP predicates over the two "
-         "elements and PF as the parity of the difference's low byte (R9, closed forms over the memory cells and AX). Does NOT decide overlapping source/destination.",
+         "elements and PF as the parity of the difference's low byte (R9, closed forms over the memory cells and AX). Does NOT decide overlapping source/destination. R7 also requires that from every call site of the interpreter in the driver the dispatch over the State variants is reached before another instruction is executed (no outcome dropped). R10: word MOVS loads both source bytes before its first store (source and destination may overlap by one byte).",
     design="DESIGN.md §6 C07")
 
 CHECKS["C09"] = dict(
@@ -93,11 +93,11 @@ CHECKS["C10"] = dict(
     design="DESIGN.md §6 C10")
 
 CHECKS["C11"] = dict(
-    technique="grammar sibling cross-check (case pairs) + action-AST abstract evaluation with marker substitution for operand order/width keywords; regex-class vs radix agreement",
+    technique="grammar sibling cross-check (case pairs) + action-AST abstract evaluation with marker substitution for operand order/width keywords; regex-class vs radix agreement; bounded exhaustive evaluation of the extracted comment pattern",
     text="Decides: every upper/lower-case literal has its sibling alternative with identical templates and effects; digit class/radix/prefix/type agreement "
          "of all numeric alternatives; synonym folding stays inside Intel classes; operands appear in the emitted line in source order (XCHG exception); "
          "byte/word operands keep their width keyword; one line per instruction. Does NOT decide `;` comment stripping or white-space handling (run-time "
-         "lexer/regex behaviour).",
+         "lexer/regex behaviour). R8 (bounded): the comment pattern and its replacement, read as constants from the driver's MIR, are evaluated (the pattern, not the program) on every comment body of up to 4 characters over {a, space, \", ', ;} in four line contexts; undecided when the driver strips comments without a constant pattern or the pattern uses constructs outside the reference engine's common subset.",
     design="DESIGN.md §6 C11")
 
 CHECKS["C12"] = dict(
@@ -116,10 +116,10 @@ CHECKS["C13"] = dict(
          "equals the hand-expanded body (regex whole-word replacement and string substitution are run-time semantics).",
     design="DESIGN.md §6 C13")
 CHECKS["C16"] = dict(
-    technique="path enumeration over all assembler action ASTs (push/add_entry pairing with the production's @L lookaround; lock/unlock bracketing) + MIR value tracing of every position handed to get_err_pos in the driver",
+    technique="path enumeration over all assembler action ASTs (push/add_entry pairing with the production's @L lookaround; lock/unlock bracketing) + MIR value tracing of every position handed to get_err_pos in the driver; MIR def-use tagging of the line lookup's results; CFG dominance/reachability for the line-table text",
     text="Decides: each emitted instruction gets exactly one source-map entry taken at the start of its production (closing brace for the implied ret); "
          "set_source/lock/unlock bracket the nested macro parse on every path; every driver message and preprocess diagnostic passes the recorded position "
-         "unmodified to the line lookup; the lookup objects hold no interior-mutable state. Does NOT decide the line/column arithmetic inside LexerHelper (value level), e.g. the last line without newline.",
+         "unmodified to the line lookup; the lookup objects hold no interior-mutable state.  Round 5: a column handed to a message is `position - line start` (R9, classification of every subtraction between the results of the line lookup); positions the assembler records for a later report are source positions also inside a macro expansion (R10); the table of line boundaries is built from the newline-terminated text and the text is not modified afterwards (R11, dominance/reachability on the driver's CFG). Still not decided: which table entry the scan loops of LexerHelper select.",
     design="DESIGN.md §6 C16")
 
 CHECKS["C08"] = dict(
@@ -143,7 +143,7 @@ CHECKS["C19"] = dict(
          "Freeze+Send+Sync with no unsafe block anywhere (so a parser object cannot remember a line and two machines share nothing); no loop over a HashMap/HashSet "
          "prints, formats or leaves early with the element (hash-order dependent output); no clock/RNG/env/thread-id/pointer-format call; VM::new yields constant 0 "
          "in every register except FLAGS=F000h, CS=FFFFh and a fresh zeroed memory, and Default delegates to it. Does NOT decide byte-identity of whole runs directly; "
-         "it removes every source of run-to-run variation that the code's shape can contain.",
+         "it removes every source of run-to-run variation that the code's shape can contain. R3 also follows a vector collected from a hash iterator to order-sensitive reads without a loop (join, concat, first/last/get, index, pop, Debug) and requires a dominating total sort.",
     design="DESIGN.md §6 C19")
 
 CHECKS["C20"] = dict(
@@ -156,11 +156,11 @@ CHECKS["C20"] = dict(
     design="DESIGN.md §6 C20")
 
 CHECKS["C18"] = dict(
-    technique="abstract interpretation of int_13/int_21 with AH fixed to each documented function (bit domain for the register frame, intervals for bounds/overflow sites, dependency sets of every memory address) + partial evaluation of the driver's INT arms and of the services over all 256 AH values + control-dependence/may-depend analysis of the AH=0Ah copy loop",
+    technique="abstract interpretation of int_13/int_21 with AH fixed to each documented function (bit domain for the register frame, intervals for bounds/overflow sites, dependency sets of every memory address) + partial evaluation of the driver's INT arms and of the services over all 256 AH values + control-dependence/may-depend analysis of the AH=0Ah copy loop; witness search by input specialisation (sound for violations: a restricted run is a sub-case of the inputs)",
     text="Decides: which of the 256 AH values the driver lets through, which the services act on and that both equal the documented sets, with every other value ending "
          "in a printed diagnostic and return; per service the frame (only AL changes; AH=2 copies DL; AH=1/2 write no memory; int_13 takes &VM), the registers each memory "
          "address depends on (DS:DX buffer, ES:BP string), the loop bounds (CX, DL), every bounds/overflow site with all registers and input free, and that the AH=0Ah "
-         "copy loop is control dependent on the capacity byte and the count on capacity and input, and that no length or count is narrowed without a guarding test. Does NOT decide the characters written to stdout.",
+         "copy loop is control dependent on the capacity byte and the count on capacity and input, and that no length or count is narrowed without a guarding test. Does NOT decide the characters written to stdout. R1 covers range accesses `mem[a..b]` (start <= end <= 2^20) and, for sites the domains leave undecided, searches a witness by restricting the inputs to sub-cases (all memory bytes FFh/00h/01h, one input length) in which operands become exact.",
     design="DESIGN.md §6 C18")
 
 CHECKS["C17"] = dict(
@@ -168,7 +168,7 @@ CHECKS["C17"] = dict(
     text="Decides: every label of `print reg`/`print flags` is followed by the value of the register/flag it names (12 + 9 pairs, resolved by the compiler), in {:04X} / 0-1 / "
          "{:02X} format; the printer, the prompt and every print action can only read the machine; the printed range is exactly a..=b, a..=a+n, 16*DS..=16*DS+n in closed form "
          "for all numerals and DS, with every vm.mem index proved < 2^20 (backwards and overflowing ranges are diverted); the PRINT arm and the prompt use one parser object and "
-         "the executing instruction's text; the assembler rejects a+n >= 2^20; 16 bytes per row whatever the start address. Does NOT decide diagnostic texts.",
+         "the executing instruction's text; the assembler rejects a+n >= 2^20; 16 bytes per row whatever the start address. Does NOT decide diagnostic texts. R3 also decides that the smallest documented range (`a -> a`, `a : 0`, `: 0`) reaches the printing loop (the abstract run restricted to that sub-case).",
     design="DESIGN.md §6 C17")
 
 CHECKS["C15"] = dict(
